@@ -5,7 +5,7 @@ import json, os, subprocess, sys, glob, time
 REPO="/repo"
 CHECKS="C01 C02 C03 C04 C05 C06 C08 C09 C10 C11 C12 C13 C15 C16 C17 C20".split()
 def sh(cmd): return subprocess.run(cmd, shell=True, capture_output=True, text=True)
-def clean(): return sh(f"git -C {REPO} status --porcelain --untracked-files=no").stdout.strip()==""
+def clean(): return sh(f"git -C {REPO} status --porcelain").stdout.strip()==""
 assert clean()
 import os.path
 out=json.load(open("/verif/seeded/MATRIX.json")) if os.path.exists("/verif/seeded/MATRIX.json") and sys.argv[1:] else {}
@@ -27,11 +27,11 @@ for name,cmd in items:
         import seedlib
         okk, msg = seedlib.apply_seed(cmd[1])
         if not okk:
-            out[name]={"error":msg}; sh(f"git -C {REPO} checkout -- ."); continue
+            out[name]={"error":msg}; sh(f"git -C {REPO} checkout -- . && git -C {REPO} clean -fdq -- src tests"); continue
     else:
         r=sh(cmd)
         if r.returncode!=0:
-            out[name]={"error":r.stderr[:200]}; sh(f"git -C {REPO} checkout -- ."); continue
+            out[name]={"error":r.stderr[:200]}; sh(f"git -C {REPO} checkout -- . && git -C {REPO} clean -fdq -- src tests"); continue
     row={}
     try:
         for cid in CHECKS:
@@ -39,7 +39,7 @@ for name,cmd in items:
             lines=[l for l in r.stdout.splitlines() if l.startswith("violation ")]
             row[cid]={"exit":r.returncode,"first":(lines[0][:200] if lines else "")}
     finally:
-        sh(f"git -C {REPO} checkout -- .")
+        sh(f"git -C {REPO} checkout -- . && git -C {REPO} clean -fdq -- src tests")
     out[name]=row
     json.dump(out,open("/verif/seeded/MATRIX.json","w"),indent=1)
     print(name, " ".join(f"{c}:{row[c]['exit']}" for c in CHECKS), flush=True)
